@@ -87,6 +87,7 @@ type funcInfo struct {
 	writes  bool // pointer receiver whose fields are assigned (directly or through calls): the receiver is returned
 	loops   bool // contains a loop (directly or through calls): takes `fuel`
 	callees map[*funcInfo]bool
+	named   []*types.Var // [BitsCode] named results (all or none)
 	done    bool
 }
 
@@ -369,8 +370,11 @@ func (t *Translator) addFunc(key string) *funcInfo {
 	}
 	for i := 0; i < sig.Results().Len(); i++ {
 		rv := sig.Results().At(i)
-		if rv.Name() != "" {
-			t.fail(fd, "named result %s of %s", rv.Name(), key)
+		if rv.Name() == "_" {
+			t.fail(fd, "blank named result of %s", key)
+		}
+		if rv.Name() != "" { // [BitsCode] named results: locals initialised to zero; a bare return yields their values
+			fi.named = append(fi.named, rv)
 		}
 		g := t.typeOf(rv.Type(), fd)
 		if g.k == kStruct && g.ptr {
